@@ -130,6 +130,8 @@ namespace pika::transform_mpi_detail {
                 }
                 PIKA_DETAIL_DP(mpi::detail::mpi_tran<7>,
                     debug(str<>("dispatch_mpi_recv"), "invoke mpi", ptr(r.op_state.request)));
+                PIKA_VERIF_POST("mpi.post", &r.op_state, (std::uint64_t) (std::uintptr_t) (r.op_state.request),
+                    (std::uint64_t(r.op_state.mode_flags) << 32) | std::uint32_t(r.op_state.status));
 
                 PIKA_ASSERT_MSG(r.op_state.request != MPI_REQUEST_NULL,
                     "MPI_REQUEST_NULL returned from mpi invocation");
@@ -139,6 +141,7 @@ namespace pika::transform_mpi_detail {
                     PIKA_DETAIL_DP(mpi::detail::mpi_tran<5>,
                         debug(str<>("set_error"), "status != MPI_SUCCESS",
                             pika::mpi::detail::error_message(r.op_state.status)));
+                    PIKA_VERIF_POST("mpi.sig", &r.op_state, 2, r.op_state.status);
                     ex::set_error(std::move(r.op_state.r),
                         std::make_exception_ptr(
                             pika::mpi::exception(r.op_state.status, "dispatch mpi")));
@@ -156,10 +159,13 @@ namespace pika::transform_mpi_detail {
 #endif
                     PIKA_DETAIL_DP(mpi::detail::mpi_tran<7>,
                         debug(str<>("trigger_mpi_recv"), "eager poll ok", ptr(r.op_state.request)));
+                    PIKA_VERIF_POST("mpi.eager", &r.op_state, 0, 0);
+                    PIKA_VERIF_POST("mpi.sig", &r.op_state, 0, 0);
                     ex::set_value(std::move(r.op_state.r));
                     return;
                 }
 
+                PIKA_VERIF_POINT("mpi.pt.trigger", &r.op_state, 0, 0);
                 // which polling/testing mode are we using
                 mpi::detail::handler_method mode =
                     mpi::detail::get_handler_method(r.op_state.mode_flags);
@@ -186,6 +192,8 @@ namespace pika::transform_mpi_detail {
                     apex::scoped_timer apex_invoke("pika::mpi::trigger");
 #endif
                     // we just assume the return from mpi_test is always MPI_SUCCESS
+                    PIKA_VERIF_POST("mpi.ydone", &r.op_state, 0, 0);
+                    PIKA_VERIF_POST("mpi.sig", &r.op_state, 1, 0);
                     ex::set_value(std::move(r.op_state.r));
                     break;
                 }
@@ -212,6 +220,8 @@ namespace pika::transform_mpi_detail {
                     apex::scoped_timer apex_invoke("pika::mpi::trigger");
 #endif
                     // call set_value/set_error depending on mpi return status
+                    PIKA_VERIF_POST("mpi.woke", &r.op_state, 0, r.op_state.status);
+                    PIKA_VERIF_POST("mpi.sig", &r.op_state, 4, r.op_state.status);
                     mpi::detail::set_value_error_helper(r.op_state.status, std::move(r.op_state.r));
                     break;
                 }
@@ -265,6 +275,7 @@ namespace pika::transform_mpi_detail {
                         trigger(r);
                     },
                     [&](std::exception_ptr ep) {
+                        PIKA_VERIF_POST("mpi.sig", &r.op_state, 3, 0);
                         ex::set_error(std::move(r.op_state.r), std::move(ep));
                     });
             }
